@@ -21,8 +21,7 @@ type judge struct {
 
 	// statistics for labels / non-triviality
 	nPlaceholders, nSupplied, nUnsupplied int
-	nSplit, nSplitFmt                     int // placeholders cut across >=2 runs / across >=2 different formats
-	nCombined                             int // placeholders the generator did not emit as one token (formed by literal neighbours) - filled by describe
+	nSplitFmt                             int // placeholders whose characters carry >= 2 different formats in the saved base
 	nLoopRows, nLoopItems                 int
 	nImgWith, nImgWithout                 int
 	nNonText                              int
